@@ -55,7 +55,12 @@ class World:
         return self.put(body)
 
     def connection(self):
-        return self.put(b'\x11' * 64)
+        """the address of a wl_connection: only ever used as a number by the plugin (never dereferenced), so the harness is
+        free to hand out addresses from different 'heaps' that agree in their low 32 (and 16) bits"""
+        self.n_conn = getattr(self, 'n_conn', 0) + 1
+        low = 0x5576a2a0 + (self.n_conn // 3) * 0x40
+        high = [0x5555, 0x7fff, 0x7f3a][self.n_conn % 3]
+        return (high << 32) | low
 
     def client(self, conn):
         return self.put(struct.pack('<QQQ', conn, 0, 0))
@@ -93,8 +98,11 @@ class World:
                     slot = struct.pack('<II', a['v'], junk)
             elif k == 'a':
                 raw = b''.join(struct.pack('<i', x) for x in a['data']) + bytes(a.get('extra_bytes', 0))
-                data = self.put(raw) if raw else self.put(b'')
-                slot = struct.pack('<Q', self.put(struct.pack('<QQQ', len(raw), len(raw) + 8, data)))
+                if not raw and a.get('null_data'):
+                    data, alloc = 0, 0
+                else:
+                    data, alloc = (self.put(raw) if raw else self.put(b'')), len(raw) + 8
+                slot = struct.pack('<Q', self.put(struct.pack('<QQQ', len(raw), alloc, data)))
             else:
                 raise ValueError(k)
             types.append(t)
@@ -183,7 +191,7 @@ class GdbSession:
     """The unmodified plugin (backends.gdb_plugin.plugin.Plugin + Controller + ConnectionManager) running on the shim,
     wired as main.main() wires it in GDB_PLUGIN mode.  Output goes through plugin.output_streams() -> gdb.write."""
 
-    def __init__(self, filter_text=None, stop_text=None, show_unprocessed=True):
+    def __init__(self, filter_text=None, stop_text=None, show_unprocessed=True, verbose=False):
         from . import env
         env.load_protocols()
         env.reset_globals(False)
@@ -196,7 +204,7 @@ class GdbSession:
         from frontends.tui import Controller
         from backends import gdb_plugin
         out_stream, err_stream = gdb_plugin.plugin.output_streams()
-        self.output = Output(False, show_unprocessed, out_stream, err_stream)
+        self.output = Output(verbose, show_unprocessed, out_stream, err_stream)
         self.cm = ConnectionManager()
         fm = matcher.parse(filter_text).simplify() if filter_text else matcher.always
         sm = matcher.parse(stop_text).simplify() if stop_text else matcher.never
